@@ -719,6 +719,29 @@ func (s *symPath) term(v ssa.Value) string {
 			}
 			return "has(" + name + "," + s.term(lk.Index) + ")"
 		}
+		// one result of an inlinable call (a single-block helper of the package returning several values)
+		if call, ok := x.Tuple.(*ssa.Call); ok && s.cfg.Inline > 0 && !call.Common().IsInvoke() {
+			cc := call.Common()
+			if callee := StaticFn(cc); callee != nil && callee.Blocks != nil && len(callee.Blocks) == 1 && callee.Pkg == s.cfg.Fn.Pkg && !s.cfg.NoInline[callee] && callee != s.cfg.Fn {
+				if rt, ok := callee.Blocks[0].Instrs[len(callee.Blocks[0].Instrs)-1].(*ssa.Return); ok && x.Index < len(rt.Results) {
+					argTerms := make([]string, len(cc.Args))
+					for i, a := range cc.Args {
+						argTerms[i] = s.term(a)
+					}
+					sub := &symPath{cfg: &SymConfig{Fn: callee, Inline: s.cfg.Inline - 1, NoInline: s.cfg.NoInline, Root: func(v ssa.Value) (string, bool) {
+						if prm, ok := v.(*ssa.Parameter); ok {
+							for i, cp := range callee.Params {
+								if cp == prm && i < len(argTerms) {
+									return argTerms[i], true
+								}
+							}
+						}
+						return "", false
+					}}}
+					return sub.term(ReturnValues(rt)[x.Index])
+				}
+			}
+		}
 		return fmt.Sprintf("%s#%d", s.term(x.Tuple), x.Index)
 	case *ssa.Phi:
 		if e := s.phiEdge(x); e != nil {
